@@ -30,7 +30,7 @@ try:
             rc1, out1 = sh("/venv/bin/python %s" % os.path.join(d, "demo.py"), cwd=WT, env=env)
             meta["demo_with_patch_rc"] = rc1
             meta["demo_with_patch_tail"] = out1.strip()[-300:]
-        sh("git checkout -- . && git clean -fdq -e matid/ext*.so", cwd=WT)
+        sh("git reset -q --hard && git clean -fdq -e matid/ext*.so", cwd=WT)
         shutil.copy(so, WT + "/matid/")
         rc0, out0 = sh("/venv/bin/python %s" % os.path.join(d, "demo.py"), cwd=WT, env=env)
         meta["demo_without_patch_rc"] = rc0
